@@ -52,3 +52,182 @@ pub fn noise(s: &mut Src, text: String) -> String {
     }
     cs.into_iter().collect()
 }
+
+// ---------------------------------------------------------------------------
+// Tree-level grammar
+
+pub const HEAD_FAMILY: &[&str] = &["html", "head", "body", "title", "base", "link", "meta", "style", "script", "noscript", "template", "basefont", "bgsound"];
+pub const BLOCK: &[&str] = &[
+    "address", "article", "aside", "blockquote", "center", "details", "dialog", "dir", "div", "dl", "fieldset", "figcaption",
+    "figure", "footer", "header", "hgroup", "main", "menu", "nav", "ol", "p", "search", "section", "summary", "ul", "pre",
+    "listing", "form", "plaintext", "xmp", "hr",
+];
+pub const HEADINGS: &[&str] = &["h1", "h2", "h3", "h6"];
+pub const LISTS: &[&str] = &["li", "dd", "dt"];
+pub const FORMATTING: &[&str] = &["a", "b", "big", "code", "em", "font", "i", "nobr", "s", "small", "strike", "strong", "tt", "u"];
+pub const SCOPING: &[&str] = &["applet", "marquee", "object", "button"];
+pub const TABLE: &[&str] = &["table", "caption", "colgroup", "col", "tbody", "thead", "tfoot", "tr", "td", "th"];
+pub const SELECT: &[&str] = &["select", "option", "optgroup", "selectedcontent", "input", "keygen", "textarea"];
+pub const RUBY: &[&str] = &["ruby", "rb", "rt", "rtc", "rp"];
+pub const VOID: &[&str] = &["area", "br", "embed", "img", "wbr", "param", "source", "track", "input", "image"];
+pub const RAW: &[&str] = &["iframe", "noembed", "noframes", "textarea", "title", "style", "script", "xmp"];
+pub const FRAMES: &[&str] = &["frameset", "frame", "noframes"];
+pub const FOREIGN: &[&str] = &[
+    "svg", "math", "foreignObject", "desc", "title", "mi", "mo", "mn", "ms", "mtext", "annotation-xml", "mglyph", "malignmark",
+    "path", "g", "circle", "clipPath", "altGlyph", "feBlend", "linearGradient", "textPath", "mrow", "semantics",
+];
+pub const MISC: &[&str] = &["span", "isindex", "x-custom", "unknown", "label", "output", "nextid", "spacer", "math", "svg", "sub", "var"];
+
+pub const FAMILIES: &[&[&str]] = &[
+    HEAD_FAMILY, BLOCK, HEADINGS, LISTS, FORMATTING, SCOPING, TABLE, SELECT, RUBY, VOID, RAW, FRAMES, FOREIGN, MISC,
+];
+const FAMILY_WEIGHTS: &[u32] = &[10, 14, 3, 6, 18, 4, 16, 6, 3, 5, 5, 3, 10, 5];
+
+pub fn pick_name(s: &mut Src) -> &'static str {
+    let f = s.weighted(FAMILY_WEIGHTS);
+    *s.pick(FAMILIES[f])
+}
+
+const ATTRS: &[&str] = &[
+    "id=a", "class=c", "type=hidden", "type=text", "TYPE=HIDDEN", "encoding=text/html", "encoding=\"application/xhtml+xml\"",
+    "encoding=TEXT/HTML", "encoding=x", "color=red", "face=x", "size=1", "xlink:href=a", "xlink:title=t", "xml:lang=en",
+    "xml:space=preserve", "xmlns=\"http://www.w3.org/2000/svg\"", "xmlns:xlink=\"http://www.w3.org/1999/xlink\"", "xmlns:foo=x",
+    "definitionurl=u", "definitionURL=v", "viewbox=1", "viewBox=\"0 0 1 1\"", "attributename=x", "shadowrootmode=open",
+    "shadowrootmode=closed", "shadowrootmode=x", "selected", "multiple", "charset=utf-8", "http-equiv=content-type",
+    "content=\"text/html; charset=x\"", "form=f", "href=#", "name=n", "x", "x=1", "x=2", "a='b'", "a=\"c\"", "disabled",
+    "nonce=n", "=", "a=&amp;", "b=&ampx", "é=ü", "\0=\0", "xlink:bogus=1", "xml:bogus=1", "xmlns:bogus=1",
+];
+
+fn gen_attrs(s: &mut Src, out: &mut String) {
+    let n = match s.below(8) {
+        0..=3 => 0,
+        4 | 5 => 1,
+        6 => 2,
+        _ => s.range(2, 5),
+    };
+    for _ in 0..n {
+        out.push(*s.pick(&[' ', ' ', ' ', '\n', '\t', '/']));
+        out.push_str(*s.pick(ATTRS));
+    }
+}
+
+const TEXTS: &[&str] = &[
+    "x", "text", " ", "  ", "\n", " \n\t", "a b", "\0", "a\0b", "\r\n", "\r", "\u{FEFF}", "é", "😁", "&amp;", "&lt;", "&nbsp;",
+    "&notit;", "&#0;", "&#x10FFFF;", "&", "\n x", "\x0C", "0123456789abcdef0123456789", "]]>", "--", "&not", "&#13;", "\t",
+];
+
+const DOCTYPES: &[&str] = &[
+    "<!DOCTYPE html>", "<!doctype html>", "<!DOCTYPE>", "<!DOCTYPE html SYSTEM \"about:legacy-compat\">", "<!DOCTYPE foo>",
+    "<!DOCTYPE html PUBLIC \"-//W3C//DTD HTML 4.01//EN\" \"http://www.w3.org/TR/html4/strict.dtd\">",
+    "<!DOCTYPE html PUBLIC \"-//W3C//DTD HTML 4.01 Transitional//EN\">",
+    "<!DOCTYPE html PUBLIC \"-//W3C//DTD HTML 4.01 Transitional//EN\" \"http://www.w3.org/TR/html4/loose.dtd\">",
+    "<!DOCTYPE html PUBLIC \"-//W3C//DTD HTML 4.01 Frameset//EN\">",
+    "<!DOCTYPE html PUBLIC \"-//W3C//DTD XHTML 1.0 Transitional//EN\" \"x\">",
+    "<!DOCTYPE html PUBLIC \"-//W3C//DTD XHTML 1.0 Frameset//EN\">",
+    "<!DOCTYPE html PUBLIC \"-//W3C//DTD HTML 3.2 Final//EN\">", "<!DOCTYPE html PUBLIC \"HTML\">",
+    "<!DOCTYPE html PUBLIC \"-//W3O//DTD W3 HTML Strict 3.0//EN//\">", "<!DOCTYPE html PUBLIC \"-/W3C/DTD HTML 4.0 Transitional/EN\">",
+    "<!DOCTYPE html SYSTEM \"http://www.ibm.com/data/dtd/v11/ibmxhtml1-transitional.dtd\">",
+    "<!DOCTYPE html PUBLIC \"-//IETF//DTD HTML//EN//3.0\" \"\">", "<!DOCTYPE HTML PUBLIC '' ''>", "<!DOCTYPE html x>",
+    "<!DOCTYPE html PUBLIC \"+//Silmaril//dtd html Pro v0r11 19970101//EN\">",
+    "<!DOCTYPE html PUBLIC \"-//W3C//DTD HTML 4.01 FRAMESET//en\" \"s\">", "<!DOCTYPE", "<!DOCTYPE html PUBLIC \"-//W3C//DTD XHTML 1.1//EN\">",
+];
+
+const COMMENTS: &[&str] = &["<!---->", "<!--x-->", "<!-- -- -->", "<!-->", "<!--->", "<!--a--!>", "<!--<!--x-->", "<!x>", "<?pi?>", "</ >", "<!--\0-->"];
+
+/// One HTML input: 0..max_tokens tokens with well-nested preference and a
+/// misnesting rate, then optional character noise.
+pub fn gen_html(s: &mut Src, max_tokens: usize) -> String {
+    let n = s.len(max_tokens);
+    let mut out = String::new();
+    let mut open: Vec<&'static str> = vec![];
+    let misnest = *s.pick(&[10u8, 40, 100]);
+    // optional prologue
+    if s.chance(50) {
+        out.push_str(*s.pick(DOCTYPES));
+    }
+    for _ in 0..n {
+        match s.weighted(&[40, 22, 16, 4, 2, 2, 3, 3]) {
+            0 => {
+                // start tag
+                let name = if s.chance(40) && !open.is_empty() {
+                    // repeat an open name (nested a, nobr, table, p, li ...)
+                    open[s.below(open.len())]
+                } else {
+                    pick_name(s)
+                };
+                out.push('<');
+                if s.chance(20) {
+                    out.push_str(&name.to_ascii_uppercase());
+                } else {
+                    out.push_str(name);
+                }
+                gen_attrs(s, &mut out);
+                if s.chance(20) {
+                    out.push('/');
+                }
+                out.push('>');
+                if !VOID.contains(&name) {
+                    open.push(name);
+                }
+                if RAW.contains(&name) && s.chance(200) {
+                    // raw text body and (usually) its end tag
+                    out.push_str(*s.pick(&["", "x", "<b>", "&amp;", "<!--", "</x>", "\n", "\0"]));
+                    if s.chance(220) {
+                        out.push_str(&format!("</{name}>"));
+                        open.pop();
+                    }
+                }
+            },
+            1 => {
+                // end tag
+                let name = if !open.is_empty() && !s.chance(misnest) {
+                    open.pop().unwrap()
+                } else if !open.is_empty() && s.bool() {
+                    let i = s.below(open.len());
+                    open.remove(i)
+                } else {
+                    pick_name(s)
+                };
+                out.push_str("</");
+                out.push_str(name);
+                if s.chance(10) {
+                    out.push_str(" x=y");
+                }
+                out.push('>');
+            },
+            2 => out.push_str(*s.pick(TEXTS)),
+            3 => out.push_str(*s.pick(COMMENTS)),
+            4 => out.push_str(*s.pick(DOCTYPES)),
+            5 => {
+                out.push_str("<![CDATA[");
+                out.push_str(*s.pick(&["", "x", "]]", "<b>", "\0", "&amp;"]));
+                if s.chance(220) {
+                    out.push_str("]]>");
+                }
+            },
+            6 => {
+                // structure shortcuts that reach deep rules quickly
+                out.push_str(*s.pick(&[
+                    "<table><tr><td>", "<table><caption>", "<table><colgroup><col>", "<select><option>", "<svg><foreignObject>",
+                    "<math><mi>", "<math><annotation-xml encoding=text/html>", "<template><tr>", "<frameset><frame>", "<ul><li>",
+                    "<b><i><p>", "<a><table><a>", "<p><b><div></b>", "<button><p><button>", "<ruby><rb><rt>", "<dl><dt><dd>",
+                    "<form><input type=hidden><form>", "</body>", "</html>", "</head>", "<head>", "<body>", "<html lang=x>",
+                    "<body class=y>", "</p>", "</br>", "<nobr><nobr>", "<table><td><table><td>", "<svg><b>", "<math><font color>",
+                    "<svg><desc><b>", "<svg><title><p>", "<table><form><input>", "<table>x<b>y", "<select><select>",
+                    "<select><input>", "<select><hr>", "<option><optgroup>", "<b><b><b><b>", "<a href=1><a href=2>",
+                    "<template><template>", "</template>", "<table><template>", "<noscript><p>", "<head><noscript><style>",
+                    "<frameset></frameset>", "</frameset>", "<noframes>x</noframes>", "<textarea>\n", "<pre>\n", "<listing>\n",
+                    "<li><li>", "<h1><h2>", "<hgroup><h1>", "<dialog><p>", "<search><p>", "<summary><details>", "<image>",
+                    "<isindex>", "<svg><image>", "<math><mglyph>", "<svg><script>", "<svg><style>", "<svg><svg/>", "<p><table>",
+                    "<applet><p></applet>", "<marquee><b></marquee>", "<object><i></object>", "<selectedcontent>",
+                    "<option selected>", "</select>", "</option>", "</table>", "</td>", "</tr>", "</caption>", "</tbody>",
+                ]));
+            },
+            _ => {
+                // whitespace-only text (matters in table / head / frameset modes)
+                out.push_str(*s.pick(&[" ", "\n", "\t", " \n ", "\x0C", "\r\n"]));
+            },
+        }
+    }
+    noise(s, out)
+}
